@@ -6,14 +6,12 @@ give the same tree.  Three roles that partition the inputs / the compared quanti
                                         structure, thresholds (same term), training predictions
   c20.tree_tied_leaf_deterministic      inputs on which some fitted tree has a leaf with tied classes: the same
                                         (failed before /repo 20a64d1 "ties go to the smallest label"; holds since)
-  c20.tree_impurity_bits_deterministic  as the first, plus impurity decreases and feature importances bit for bit.
-                                        Holds for 2 classes.  FINDING for >= 3 classes: gini_impurity / entropy sum f32
-                                        terms in HashMap order (algorithm.rs:674-697), e.g. class weights (3,1,1) give
-                                        0.55999994 or 0.56 -> `split().2` and `feature_importance()` differ between fits.
-                                        Those jobs are listed separately in JOBS_C20_TREE_FINDING.
+  c20.tree_impurity_bits_deterministic  as the first, plus impurity decreases and feature importances bit for bit
+                                        (failed for >= 3 classes before /repo 6fc1817: gini_impurity / entropy summed
+                                        f32 terms in HashMap order, e.g. class weights (3,1,1) gave 0.55999994 or 0.56)
 
 Parameters as for c14.tree (see registry/c14.py) plus fits (default 24).
-The integrator merges JOBS_C20_TREE (and decides about JOBS_C20_TREE_FINDING) into the C20 registry.
+The integrator merges JOBS_C20_TREE into the C20 registry.
 """
 from registry import job
 
@@ -50,14 +48,17 @@ for crit in (0, 1):
     thorough.append(r("impurity_bits_deterministic", secs=900, jobs=16, n=5, d=1, classes=2, crit=crit))
     thorough.append(r("impurity_bits_deterministic", secs=900, jobs=16, n=4, d=1, classes=2, crit=crit, wpat=-2, wmax=3))
 
-# expected to FAIL on the tree at the time of writing (genuine defect, see module doc)
-finding = [
+# three classes: impurity bits (class weights (1,1,3) for Gini and (3,3,4) for entropy were order dependent)
+bits3 = [
     r("impurity_bits_deterministic", secs=120, jobs=2, n=3, d=1, classes=3, wpat=-2, wmax=3, canon=1),
-    # labels 0,1,2 with weights 3,3,4: entropy 1.5709505 or 1.5709506 depending on the map order
-    r("impurity_bits_deterministic", secs=60, n=3, d=1, classes=3, pattern=21, wpat=58, wmax=4, crit=1),
-    r("impurity_bits_deterministic", secs=600, jobs=16, n=5, d=1, classes=3, canon=1),
+    r("impurity_bits_deterministic", secs=60, n=3, d=1, classes=3, pattern=21, wpat=58, wmax=4, crit=1),  # labels 0,1,2 weights 3,3,4
+    r("impurity_bits_deterministic", secs=180, jobs=8, n=4, d=1, classes=3, canon=1),
 ]
+quick += bits3
+thorough += bits3
+thorough.append(r("impurity_bits_deterministic", secs=900, jobs=16, n=5, d=1, classes=3, canon=1))
+thorough.append(r("impurity_bits_deterministic", secs=900, jobs=16, n=5, d=1, classes=3, canon=1, crit=1))
+thorough.append(r("impurity_bits_deterministic", secs=900, jobs=16, n=3, d=1, classes=3, wpat=-2, wmax=4, crit=1))
 
 REG = {}
 JOBS_C20_TREE = {"quick": quick, "thorough": thorough}
-JOBS_C20_TREE_FINDING = {"quick": finding[:2], "thorough": finding}
